@@ -325,7 +325,37 @@ for _n in (1, 2, 3):
              "list", "MinimumCurveDistanceFinder.D(r, k) for r <= %d, k <= %d, row major" % (2 * _n, 2 * _m))(_D(_n, _m))
 
 # =============================================================================== Length (C04)
+import beziers.utils.arclengthmixin as alm  # noqa: E402
+import beziers.utils.legendregauss as lgm  # noqa: E402
 
-spec("Length", "cubic_length", pp("p0", "p1", "p2", "p3"), ["v"], "ArcLengthMixin.length on a CubicBezier (24-point Gauss-Legendre)")(lambda: [cub().length])
-spec("Length", "quad_length", pp("p0", "p1", "p2"), ["v"], "ArcLengthMixin.length on a QuadraticBezier")(lambda: [quad().length])
+GL_N = len(lgm.Tvalues)
+GL_T = ["T%d" % i for i in range(GL_N)]
+GL_C = ["C%d" % i for i in range(GL_N)]
+
+
+def _with_tables(f):
+    """Run f with the Gauss-Legendre tables replaced by variables T0.., C0.. (symbolic when tracing, the
+    library's own floats when run concretely), so that `z*T[i] + z` is traced as real arithmetic."""
+    def g():
+        oT, oC = alm.Tvalues, alm.Cvalues
+        alm.Tvalues = [V(n) for n in GL_T]
+        alm.Cvalues = [V(n) for n in GL_C]
+        try:
+            return f()
+        finally:
+            alm.Tvalues, alm.Cvalues = oT, oC
+    return g
+
+
+def gl_table_env():
+    env = {}
+    for n, v in zip(GL_T, lgm.Tvalues):
+        env[n] = v
+    for n, v in zip(GL_C, lgm.Cvalues):
+        env[n] = v
+    return env
+
+
+spec("Length", "cubic_length", GL_T + GL_C + pp("p0", "p1", "p2", "p3"), ["v"], "ArcLengthMixin.length on a CubicBezier (Gauss-Legendre; tables as parameters)")(_with_tables(lambda: [cub().length]))
+spec("Length", "quad_length", GL_T + GL_C + pp("p0", "p1", "p2"), ["v"], "ArcLengthMixin.length on a QuadraticBezier")(_with_tables(lambda: [quad().length]))
 spec("Length", "line_length", pp("p0", "p1"), ["v"], "Line.length")(lambda: [lin().length])
